@@ -1597,6 +1597,44 @@ func probe2History(h *qHist) error {
 		for _, it := range []qItem{{"", "s"}, {"max", "s"}, {"", "la"}, {"", "fi"}} {
 			q("after flush", []qItem{it}, []string{"host"}, 0, 600000, 0)
 		}
+	case "flushwindow":
+		// a query that runs after the data file of a flush is visible (the new version is installed) and before the
+		// flushed memory database is dropped: the family hands out the file AND the immutable memory database.
+		// The window is entered through the sequence acknowledgement callback of the family, which the flush
+		// calls exactly there.
+		_ = h.write(0, []qRow{mk(1, 0, 3)})
+		_ = h.write(0, []qRow{mk(1, 20000, 5)})
+		f, err := h.family(0, h.base)
+		if err != nil {
+			return err
+		}
+		f.CommitSequence(1, 7)
+		armed := false
+		f.AckSequence(1, func(int64) {
+			if !armed {
+				return
+			}
+			armed = false
+			for _, it := range []qItem{{"", "s"}, {"", "ma"}} {
+				qq := &qQuery{from: h.base, to: h.base + 600000, qiv: 0, items: []qItem{it}, group: []string{"host"}}
+				res, _ := h.run(qq, lay)
+				h.rec.Emit("Query", trace.F{"q": qq.event(), "lay": lay.event(), "res": res, "sql": qq.sql(),
+					"conc": []int64{0, h.base / 1000}, "window": "after-commit"})
+			}
+		})
+		armed = true
+		_ = f.Flush()
+		h.rec.Emit("Flush", trace.F{"shard": 0, "fam": h.base / 1000, "files": h.files()})
+		q("after the flush", []qItem{{"", "s"}}, []string{"host"}, 0, 600000, 0)
+	case "memfile":
+		// the same slot of one series in a file, in the immutable-then-flushed... and in the memory database
+		_ = h.write(0, []qRow{mk(1, 0, 1)})
+		_ = h.write(0, []qRow{mk(1, 1000, 2)})
+		_ = h.flush(0, h.base)
+		_ = h.write(0, []qRow{mk(1, 2000, 100)})
+		for _, it := range []qItem{{"", "s"}, {"", "la"}, {"", "fi"}} {
+			q("one file + memory, same slot", []qItem{it}, []string{"host"}, 0, 600000, 0)
+		}
 	case "compactlast":
 		_ = h.write(0, []qRow{mk(1, 0, 1)})
 		_ = h.flush(0, h.base)
